@@ -79,6 +79,9 @@ def judge(f, args, kws, value):
         tag = 'post_short'
     if any(n == 'result' for n, _ in kws):
         tag = 'keyword_named_result'
+    posonly = {p[0] for p in f['sig'] if p[1] == 'PosOnly'}
+    if any(n in posonly for n, _ in kws) and any(p[1] == 'VarKw' for p in f['sig']) and any([p[0] for p in v['sig']] == ['_'] for v in ensures):
+        tag = tag or 'posonly_name_as_keyword'      # a valid call that inspect.Signature.bind rejects: the `_`-form ensure raises TypeError (C01-F2 seen from here)
     for v in posts:
         r = pyeval.verdict(v, None, [], [], args_override=[vj]) if [p[0] for p in v['sig']] != ['_'] else \
             pyeval.verdict(v, None, [], [['result', vj]])
